@@ -170,6 +170,7 @@ def run_case(plan, prop, want_log=False):
         if plan["config"].get("dim") == 2:
             # camera worlds carry image ROIs: the loader / lookup / analysis / frame-twin oracles are about boxes in space
             mons = [m for m in mons if not isinstance(m, (OW.C16Monitor, OW.C17Monitor, OA.C19Monitor))]
+            ctx.probe("camera_world_runs")
         lane = X.Lane(ctx, "main", monitors=mons)
         lane.run()
         relational_for(prop, ctx, lane)
